@@ -5,7 +5,7 @@
 From Coq Require Import List ZArith Bool.
 From SVC Require Import Base.AMap Base.Res Base.Dec Model.Types Model.Pricing
   Model.Handlers Model.EndBlock Model.Step Proofs.Inv Proofs.BankLemmas Proofs.StepSpecs_deposit
-  Proofs.TraceLemmas Proofs.TraceSettle.
+  Proofs.TraceLemmas Proofs.TraceSettle Proofs.DecProofs Proofs.GapC02 Proofs.GapC02b Proofs.GapC03 Proofs.GapC04 Proofs.GapC02c Proofs.GapC04b Proofs.GapC03c.
 Import ListNotations.
 Open Scope Z_scope.
 
@@ -138,3 +138,155 @@ Theorem C14_slash_disables : forall cfg s r s1,
     /\ (b_avail b' = b_avail b -> b_dtime b' = b_dtime b).
 Proof. exact StepSpecs_deposit.C14_slash_disables. Qed.
 Print Assumptions C14_slash_disables.
+
+(* ------------------------------------------------------------------ *)
+(* gap closing (audit C04, section (d)) *)
+
+(* an accepted response is slashed iff its output is non-empty and fails the schema -- in super
+   mode as well; the slash events among the events d appended by the step are then exactly the
+   one slash of the binding (service of the context, provider of the request) by the fraction of
+   its deposit at that moment, and deposit, supply and custody account fall by that amount;
+   otherwise the step appends no slash event and touches neither bindings nor supply.
+   is_any_slash e := e is an EvSlash;  dep_at s k := deposit recorded on binding k (0 if absent) *)
+Theorem C04_respond_slash_iff : forall cfg s r who code out ov ok s',
+  handle cfg s (ORespond r who code out ov ok) = Ok s' ->
+  exists d, log s' = d ++ log s /\
+    if negb (out =? 0) && negb ov
+    then exists sa q rc,
+         slash cfg s r = Ok sa /\ get r (reqs s) = Some q /\ get (rid_ctx r) (ctxs s) = Some rc
+         /\ who = r_prov q
+         /\ has (c_svc rc, r_prov q) (binds s) = true
+         /\ filter is_any_slash d
+            = [EvSlash r (c_svc rc, r_prov q)
+                 (mul_trunc (dep_at s (c_svc rc, r_prov q)) (p_slash cfg))]
+         /\ 0 <= mul_trunc (dep_at s (c_svc rc, r_prov q)) (p_slash cfg) <= dep_at s (c_svc rc, r_prov q)
+         /\ dep_at s' (c_svc rc, r_prov q)
+            = dep_at s (c_svc rc, r_prov q) - mul_trunc (dep_at s (c_svc rc, r_prov q)) (p_slash cfg)
+         /\ (forall k, k <> (c_svc rc, r_prov q) -> get k (binds s') = get k (binds s))
+         /\ supply s' = supply s - mul_trunc (dep_at s (c_svc rc, r_prov q)) (p_slash cfg)
+         /\ bal s' Deposit = bal s Deposit - mul_trunc (dep_at s (c_svc rc, r_prov q)) (p_slash cfg)
+    else filter is_any_slash d = [] /\ binds s' = binds s /\ supply s' = supply s
+         /\ bal s' Deposit = bal s Deposit.
+Proof. exact GapC02.respond_slash_iff. Qed.
+Print Assumptions C04_respond_slash_iff.
+
+(* "times out" by heights: a request still active when the EndBlock of its expiry height runs
+   is expired in that EndBlock (EvExpire among the events appended); outside super mode the
+   binding (service of the context, provider of the request) is slashed exactly once and the fee
+   refunded; in super mode there is no slash *)
+Theorem C04_timeout_is_slashed : forall cfg s dt r q rc,
+  wf_cfg cfg -> Reach cfg s -> wf_op s (OEndBlock dt) ->
+  get r (reqs s) = Some q -> r_active q = true -> r_exp q = height s ->
+  get (rid_ctx r) (ctxs s) = Some rc ->
+  let s' := end_block cfg s dt in
+  Reach cfg s'
+  /\ get r (reqs s') = None
+  /\ In (EvIssue r (r_prov q) (c_cons rc) (r_fee q)) (log s)
+  /\ (exists d, log s' = d ++ log s /\ In (EvExpire r) d)
+  /\ (c_super rc = true -> r_fee q = 0 /\ counts r (log s') = (1, 0, 0, 0, 0, 0, 1)%nat)
+  /\ (c_super rc = false ->
+        0 < r_fee q /\ counts r (log s') = (1, 0, 0, 0, 1, 1, 1)%nat
+        /\ In (EvRefund r (c_cons rc) (r_fee q)) (log s')
+        /\ exists amt, In (EvSlash r (c_svc rc, r_prov q) amt) (log s')).
+Proof. exact GapC02b.timeout_settled. Qed.
+Print Assumptions C04_timeout_is_slashed.
+
+(* the arithmetic of the amount: floor(deposit x fraction); fraction 0 and fraction 1 *)
+Theorem C04_amount_is_floor : forall d f, 0 <= d -> 0 <= f -> mul_trunc d f = (d * f) / PREC.
+Proof. exact DecProofs.mul_trunc_floor. Qed.
+Print Assumptions C04_amount_is_floor.
+
+Theorem C04_fraction_zero : forall d, mul_trunc d 0 = 0.
+Proof. exact DecProofs.mul_trunc_0_r. Qed.
+Print Assumptions C04_fraction_zero.
+
+Theorem C04_fraction_one : forall d, mul_trunc d ONE = d.
+Proof. exact DecProofs.mul_trunc_ONE. Qed.
+Print Assumptions C04_fraction_one.
+
+(* per step: several failures of the same provider in one block, supply falls by exactly the
+   slashed amounts (same statement as C03_deposit_falls_only_by_slash; vocabulary there) *)
+Theorem C04_step_slash_totals : forall cfg s o s',
+  handle cfg s o = Ok s' ->
+  ((exists dt, o = OEndBlock dt) \/ (exists r w c out v ok, o = ORespond r w c out v ok)) ->
+  exists d, log s' = d ++ log s
+    /\ Forall (fun e => 0 <= slash_any e /\ is_dep_move e = false) d
+    /\ (forall k, dep_at s' k = dep_at s k - slashed k d /\ 0 <= slashed k d <= slashed_all d)
+    /\ (forall k, has k (binds s') = has k (binds s))
+    /\ (forall k b, get k (binds s) = Some b ->
+          exists b', get k (binds s') = Some b' /\ b_owner b' = b_owner b /\ b_raw b' = b_raw b
+                     /\ b_qos b' = b_qos b /\ (b_avail b' = true -> b_avail b = true))
+    /\ supply s' = supply s - slashed_all d
+    /\ bal s' Deposit = bal s Deposit - slashed_all d.
+Proof. exact GapC03.deposit_falls_only_by_slash. Qed.
+Print Assumptions C04_step_slash_totals.
+
+(* "never for any other reason", per step: an event that mentions request r is appended only by
+   EndBlock or by an accepted response to r itself *)
+Theorem C04_request_events_only_by : forall cfg s o s' d e r,
+  handle cfg s o = Ok s' -> log s' = d ++ log s -> In e d -> ev_rid e = Some r ->
+  (exists dt, o = OEndBlock dt) \/ (exists w c out v, o = ORespond r w c out v true).
+Proof. exact GapC04.request_events_only_by. Qed.
+Print Assumptions C04_request_events_only_by.
+
+(* a slash event is appended only by EndBlock or by an accepted response to that request with a
+   non-empty schema-invalid output; in the second case it names the binding (service of the
+   context, responding = designated provider) and the fraction of its deposit *)
+Theorem C04_only_respond_and_endblock_slash : forall cfg s o s' d r k amt,
+  handle cfg s o = Ok s' -> log s' = d ++ log s -> In (EvSlash r k amt) d ->
+  (exists dt, o = OEndBlock dt)
+  \/ (exists w c out q rc,
+        o = ORespond r w c out false true /\ out <> 0
+        /\ get r (reqs s) = Some q /\ get (rid_ctx r) (ctxs s) = Some rc /\ w = r_prov q
+        /\ k = (c_svc rc, w) /\ amt = mul_trunc (dep_at s k) (p_slash cfg)).
+Proof. exact GapC04.only_respond_and_endblock_slash. Qed.
+Print Assumptions C04_only_respond_and_endblock_slash.
+
+(* the expiry loop packaged (C04_LI_start, C04_LI_loop, C04_expire_req_events composed): for a
+   reachable state and a context due for expiry whose batch is still open, every still-active
+   request of the batch expires at its expiry height, and outside super mode its provider's
+   binding is slashed and the fee refunded to the consumer *)
+Theorem C04_expire_one_events : forall cfg s c rc,
+  wf_cfg cfg -> Reach cfg s -> In (height s, c) (expq s) ->
+  get c (ctxs s) = Some rc -> c_bdone rc = false ->
+  forall r, In r (active_rids s c (c_counter rc)) ->
+    exists q, get r (reqs s) = Some q /\ r_active q = true /\ rid_ctx r = c /\ r_exp q = height s
+      /\ In (EvExpire r) (log (expire_one cfg s c))
+      /\ (c_super rc = false ->
+            In (EvRefund r (c_cons rc) (r_fee q)) (log (expire_one cfg s c))
+            /\ exists amt, In (EvSlash r (c_svc rc, r_prov q) amt) (log (expire_one cfg s c))).
+Proof. exact GapC04.expire_one_events. Qed.
+Print Assumptions C04_expire_one_events.
+
+(* EndBlock, every event about a request: a slash appended by EndBlock belongs to a request that
+   was stored, still active and at its expiry height when the block ended, whose context is NOT
+   in super mode, and it names the binding (service of that context, provider of that request);
+   EndBlock appends no respond / earn / tax event *)
+Theorem C04_endblock_request_events : forall cfg s dt,
+  wf_cfg cfg -> Reach cfg s -> wf_op s (OEndBlock dt) ->
+  exists d, log (end_block cfg s dt) = d ++ log s
+    /\ forall e r, In e d -> ev_rid e = Some r ->
+         (exists p c f, e = EvIssue r p c f /\ rid_height r = height s)
+         \/ (exists q rc, get r (reqs s) = Some q /\ r_active q = true /\ r_exp q = height s
+                /\ get (rid_ctx r) (ctxs s) = Some rc
+                /\ (e = EvExpire r
+                    \/ (c_super rc = false
+                        /\ (e = EvRefund r (c_cons rc) (r_fee q)
+                            \/ exists amt, e = EvSlash r (c_svc rc, r_prov q) amt)))).
+Proof. exact GapC02c.endblock_request_events. Qed.
+Print Assumptions C04_endblock_request_events.
+
+(* trace level: in every reachable state the binding named by a slash event belongs to the
+   provider the request was issued to (the `exists k` of the closed traces is pinned down) *)
+Theorem C04_slash_names_issued_provider : forall cfg s r k amt p c f,
+  wf_cfg cfg -> Reach cfg s ->
+  In (EvSlash r k amt) (log s) -> In (EvIssue r p c f) (log s) -> snd k = p.
+Proof. exact GapC04b.slash_names_issued_provider. Qed.
+Print Assumptions C04_slash_names_issued_provider.
+
+(* history level: total supply falls by exactly the slashed amounts, over any history *)
+Theorem C04_supply_falls_by_slashes : forall cfg h0 t0 f ops,
+  let s := run cfg (init h0 t0 f) ops in
+  supply s = supply (init h0 t0 f) - slashed_all (log s).
+Proof. exact GapC03c.supply_ledger. Qed.
+Print Assumptions C04_supply_falls_by_slashes.
